@@ -667,7 +667,13 @@ func (dsc *dataStoreCommand) bitfieldWrite(keyName string, ops []*bitfieldOp) (o
 						newValue = signExtend(newValue, bits)
 					}
 				case OFLOW_SAT:
-					newValue = saturateValue(op.signed, newValue, bits)
+					if !op.signed && op.op == BF_SET {
+						// a negative value given for an unsigned field is a huge
+						// unsigned number: it saturates at the top
+						newValue = saturateValue(false, 1, bits)
+					} else {
+						newValue = saturateValue(op.signed, newValue, bits)
+					}
 				case OFLOW_FAIL:
 					results = append(results, nil)
 					continue
